@@ -113,6 +113,7 @@ type Stats struct {
 	MapRangesMissed  int            `json:"map_ranges_uncontrolled"`
 	Onces            int            `json:"onces"`
 	Failpoints       int            `json:"failpoints"`
+	WGParks          int            `json:"wg_parks"`
 	Warnings         []string       `json:"warnings"`
 	MissingCritical  []string       `json:"missing_critical"`
 	MissingFail      []string       `json:"missing_failpoints"`
@@ -931,6 +932,25 @@ func (c *fileCtx) processFile() {
 				_ = ds
 			}
 			l := c.label(st.Pos(), kind)
+			if kind == "wgwait" {
+				// park in the scheduler until the counter is zero, so that the real Wait
+				// below returns at once: synctest does not always treat a WaitGroup.Wait as
+				// durably blocking, and a task that blocks non-durably stalls the simulation
+				if es, ok := x.(*ast.ExprStmt); ok {
+					if call, ok := es.X.(*ast.CallExpr); ok {
+						if sel, ok := call.Fun.(*ast.SelectorExpr); ok && simpleExpr(sel.X) {
+							recvText := c.text(sel.X)
+							if _, isPtr := c.pkg.TypesInfo.TypeOf(sel.X).Underlying().(*types.Pointer); !isPtr {
+								recvText = "&" + recvText
+							}
+							if _, _, promoted, ok := syncMethod(c.pkg.TypesInfo, sel); ok && !promoted {
+								c.insert(st.Pos(), fmt.Sprintf("simhook.BeforeWGWait(%s, %d);", recvText, c.label(st.Pos(), "wgpark")))
+								stats.WGParks++
+							}
+						}
+					}
+				}
+			}
 			c.insert(st.Pos(), fmt.Sprintf("__simbt%d := simhook.Block(%d);", l, l))
 			c.insert(st.End(), fmt.Sprintf("; simhook.Unblock(__simbt%d, %d)", l, l))
 			stats.Blocks++
